@@ -35,6 +35,36 @@ Theorem gen_polyak_eq_model tau q1 t1 q2 t2 :
   gen_polyak_t1 tau q1 t1 q2 t2 = polyak tau q1 t1 /\ gen_polyak_t2 tau q1 t1 q2 t2 = polyak tau q2 t2.
 Proof. split; reflexivity. Qed.
 
+(* SAC.sac_train executed symbolically (gradient and optimiser calls are oracles returning the primed values): the critics and their
+   optimiser state are replaced on EVERY iteration; the actor and its optimiser state only when iteration_count mod policy_frequency = 0
+   (count as passed in, i.e. before the increment); the temperature and its optimiser state only under the same gate AND autotune;
+   otherwise each of them is returned unchanged (bit-identical: the very same value) *)
+Section SacTrain.
+  Context {X : Type}.
+  Variables (autotune : bool) (freq count : nat).
+  Variables (policy policy' opt opt' qf1 qf1' qf2 qf2' q_opt q_opt' alpha_opt alpha_opt' : X) (la la' : R).
+  Notation G f := (f X autotune freq count policy policy' opt opt' qf1 qf1' qf2 qf2' q_opt q_opt' alpha_opt alpha_opt' la la').
+
+  Theorem gen_sactrain_gating :
+    (0 < freq)%nat ->
+    G (@gen_sactrain_policy) = gated X (fun _ _ => policy') freq true policy count /\
+    G (@gen_sactrain_opt_state) = gated X (fun _ _ => opt') freq true opt count /\
+    G (@gen_sactrain_log_alpha) = gated R (fun _ _ => la') freq autotune la count /\
+    G (@gen_sactrain_alpha_opt_state) = gated X (fun _ _ => alpha_opt') freq autotune alpha_opt count /\
+    G (@gen_sactrain_qf1) = qf1' /\ G (@gen_sactrain_qf2) = qf2' /\ G (@gen_sactrain_q_opt_state) = q_opt'.
+  Proof.
+    intros H.
+    unfold gen_sactrain_policy, gen_sactrain_opt_state, gen_sactrain_log_alpha, gen_sactrain_alpha_opt_state,
+      gen_sactrain_qf1, gen_sactrain_qf2, gen_sactrain_q_opt_state, gated.
+    rewrite <- Nat2Z.inj_mod.
+    assert (E : Z.eqb (Z.of_nat (count mod freq)) 0 = Nat.eqb (count mod freq) 0).
+    { destruct (Nat.eqb_spec (count mod freq) 0) as [E|E]; [rewrite E; reflexivity|].
+      destruct (Z.eqb_spec (Z.of_nat (count mod freq)) 0); [lia | reflexivity]. }
+    rewrite E. destruct autotune, (Nat.eqb (count mod freq) 0); repeat split; reflexivity.
+  Qed.
+End SacTrain.
+
+Print Assumptions gen_sactrain_gating.
 Print Assumptions gen_num_iterations_eq_model.
 Print Assumptions gen_dqn_iter_target.
 Print Assumptions gen_polyak_eq_model.
